@@ -5,27 +5,41 @@
 #include <errno.h>
 using namespace vfw;
 namespace {
-struct Stream { int node; int pos; bool open; };
-Stream g_streams[8]; int g_nstreams = 0;
+struct Stream { int node; int pos; bool open; int npids; int pids[VFW_MAXPIDS]; };   // cgroup.procs is a snapshot taken when the file is opened
+Stream g_stream;   // BaseKillPlugin closes cgroup.procs before it recurses into the children: one stream is open at a time
 int g_kill_calls = 0;
 }
+#if !VF_MODEL
+#include <sys/mman.h>
+#include <unistd.h>
+#include <string.h>
+#endif
 extern "C" {
 // (the variadic libc entry points vfx_openat / vfx_syscall are thin C wrappers in env/libc_stubs.c)
 int vfk_openat(int dirfd) {
   int n = node_of_fd(dirfd);
   vf_event(EV_OPENPROCS, n, dirfd, 0, 0);
   if (n < 0 || !((nodes[n].avail >> F_PROCS) & 1)) { errno = ENOENT; return -1; }
-  if (g_nstreams >= 8) { vf_bound("procs streams"); return -1; }
-  g_streams[g_nstreams].node = n; g_streams[g_nstreams].pos = 0; g_streams[g_nstreams].open = true;
-  return 5000 + g_nstreams++;
+#if !VF_MODEL
+  // real build: a real descriptor with the same text (the real fdopen / getline / fclose run on it)
+  char text[64 * VFW_MAXPIDS + 8]; int len = 0;
+  for (int k = 0; k < nodes[n].npids; k++) len += snprintf(text + len, sizeof(text) - len, "%d\n", nodes[n].pids[k]);
+  int fd = ::memfd_create("procs", 0);
+  if (fd < 0 || ::write(fd, text, len) != len || ::lseek(fd, 0, SEEK_SET) != 0) vf_fail("env: memfd");
+  return fd;
+#else
+  if (g_stream.open) vf_fail("env: a second cgroup.procs stream opened while one is open (descriptor leak)");
+  g_stream.node = n; g_stream.pos = 0; g_stream.open = true;
+  g_stream.npids = nodes[n].npids; for (int k = 0; k < VFW_MAXPIDS; k++) g_stream.pids[k] = nodes[n].pids[k];
+  return 5000;
+#endif
 }
-FILE* vfx_fdopen(int fd, const char*) { if (fd < 5000 || fd >= 5000 + g_nstreams) return nullptr; return (FILE*)&g_streams[fd - 5000]; }
+FILE* vfx_fdopen(int fd, const char*) { if (fd != 5000 || !g_stream.open) return nullptr; return (FILE*)&g_stream; }
 ssize_t vfx_getline(char** line, size_t* len, FILE* fp) {
   Stream* s = (Stream*)fp;
   if (!s->open) vf_fail("env: getline on a closed stream");
-  Node& nd = nodes[s->node];
-  if (s->pos >= nd.npids) return -1;
-  int pid = nd.pids[s->pos++];
+  if (s->pos >= s->npids) return -1;
+  int pid = s->pids[s->pos++];
   if (*line == nullptr) { *line = (char*)::malloc(8); *len = 8; }
   char* b = *line; int k = 0;
   if (pid >= 100) b[k++] = (char)('0' + pid / 100 % 10);
@@ -34,7 +48,7 @@ ssize_t vfx_getline(char** line, size_t* len, FILE* fp) {
   return k;
 }
 int vfx_fclose(FILE* fp) { Stream* s = (Stream*)fp; if (!s->open) vf_fail("env: double fclose"); s->open = false; return 0; }
-int vfx_close(int fd) { vf_event(EV_NOTE, 700, fd, 0, 0); return 0; }
+int vfx_close(int fd) { (void)fd; return 0; }
 int vfx_kill(pid_t pid, int sig) {
   int r = (int)vf_nd(4000 + (g_kill_calls < 12 ? g_kill_calls : 12), 0, 1);   // 0 delivered, 1 ESRCH/EPERM
   g_kill_calls++;
